@@ -141,6 +141,7 @@ fn dc_frames(len: usize) -> Arc<[Frame]> {
 struct DcDecoder {
 	len: usize,
 	pos: usize,
+	produced: Arc<AtomicU64>,
 }
 impl kira::sound::streaming::Decoder for DcDecoder {
 	type Error = String;
@@ -153,6 +154,7 @@ impl kira::sound::streaming::Decoder for DcDecoder {
 	fn decode(&mut self) -> Result<Vec<Frame>, String> {
 		let n = 3.min(self.len - self.pos).max(1);
 		self.pos = (self.pos + n).min(self.len);
+		self.produced.fetch_add(n as u64, Ordering::SeqCst);
 		Ok(vec![Frame::new(HALF, HALF); n])
 	}
 	fn seek(&mut self, i: usize) -> Result<usize, String> {
@@ -203,14 +205,19 @@ fn run_handles(sc: &J, t: &mut Tracer) {
 			let mut track = s.sim.manager.add_sub_track(TrackBuilder::new()).unwrap();
 			// scene L: the streaming sound is on the main track, so that pausing the sub-track (which freezes
 			// everything below it, C12) does not interfere with the sound's own life cycle
-			let s2data = StreamingSoundData::from_decoder(DcDecoder { len: 64, pos: 0 })
+			let produced = Arc::new(AtomicU64::new(0));
+			let s2data = StreamingSoundData::from_decoder(DcDecoder { len: 64, pos: 0, produced: produced.clone() })
 				.loop_region(..)
 				.panning(Panning::RIGHT);
 			let s2 = if scene == "V" { track.play(s2data).unwrap() } else { s.sim.manager.play(s2data).unwrap() };
 			s.s1 = Some(s.sim.manager.play(data).unwrap());
 			s.s2 = Some(s2);
 			s.t = Some(track);
-			std::thread::sleep(Duration::from_millis(5));
+			// the decoder keeps ahead: wait until it has buffered more than the session can consume
+			let t0 = std::time::Instant::now();
+			while produced.load(Ordering::SeqCst) < 600 && t0.elapsed() < Duration::from_secs(5) {
+				std::thread::sleep(Duration::from_micros(200));
+			}
 			if scene == "V" {
 				for (k, v) in [("main.vol", 0), ("s1.vol", 0), ("s2.vol", 0), ("t.vol", 0)] {
 					level(&mut init, &mut jump, k, json!(v));
